@@ -67,8 +67,8 @@ func (g *g3) body(depth, loops int) []ref.Tok {
 
 func (g *g3) element(depth, loops int) []ref.Tok {
 	deep := depth >= g.maxD
-	k := g.rng.IntN(50)
-	if deep && ((k >= 8 && k < 30) || k == 45 || k == 46) {
+	k := g.rng.IntN(56)
+	if deep && ((k >= 8 && k < 30) || k == 45 || k == 46 || k == 54) {
 		k = g.rng.IntN(8)
 	}
 	switch {
@@ -282,6 +282,51 @@ func (g *g3) element(depth, loops int) []ref.Tok {
 			return []ref.Tok{xn("["), g.lit(), ref.TProc{g.lit()}, g.lit(), xn("]"), xn("cvx"), xn("exec")}
 		}
 		return []ref.Tok{xn("["), ref.TProc{g.lit(), ref.TProc{g.lit()}}, g.lit(), xn("]"), ref.TInt(0), xn("get"), xn("exec")}
+	case k < 50:
+		return []ref.Tok{g.lit()}
+	case k < 52:
+		// a string constant in a body is ONE object: every execution pushes a
+		// reference to it (seen as sharing in the final state), and a write
+		// through one reference shows through the others
+		g.feat["string constant in a body"] = true
+		g.next++
+		out := []ref.Tok{ref.TStr(fmt.Sprintf("s%d", g.next))}
+		if g.rng.IntN(3) == 0 {
+			out = append(out, xn("dup"), ref.TInt(0), ref.TInt(int64(65+g.rng.IntN(26))), xn("put"))
+		}
+		return out
+	case k < 54:
+		// a name bound to an executable NAME (fetched out of a body): executing it
+		// looks the other name up in turn, at that moment
+		g.feat["name bound to an executable name"] = true
+		al := g.newName("al")
+		target := []string{"add", "dup", "exch", "pop", "count"}[g.rng.IntN(5)]
+		if len(g.procs) > 0 && g.rng.IntN(2) == 0 {
+			target = g.procs[g.rng.IntN(len(g.procs))]
+		}
+		if loops > 0 && g.rng.IntN(3) == 0 {
+			target = "exit"
+		}
+		out := []ref.Tok{ln(al), ref.TProc{xn(target)}, ref.TInt(0), xn("get"), xn("def"), g.lit(), g.lit(), xn(al)}
+		if g.rng.IntN(3) == 0 {
+			// late binding through the alias: the target is re-bound before the next use
+			out = append(out, ln(target), ref.TProc{xn("pop"), g.lit()}, xn("def"), g.lit(), g.lit(), xn(al))
+		}
+		return out
+	case k < 55:
+		// for between bounds that are far apart in the integer range
+		g.feat["for with bounds far apart"] = true
+		sh := [][3]int64{{-5000000000000000000, 2500000000000000000, 5000000000000000000}, {-4000000000000000000, 4000000000000000000, 9000000000000000000},
+			{9223372036854775805, 1, 9223372036854775807}, {-9223372036854775806, -1, -9223372036854775808}, {-9223372036854775808, 4611686018427387904, 9223372036854775807},
+			{9223372036854775807, -9223372036854775807, -9223372036854775808}, {-1, 1, 9223372036854775807}, {1, -1, -9223372036854775808}}[g.rng.IntN(8)]
+		body := g.proc(depth, loops+1)
+		if sh[1] == 1 || sh[1] == -1 {
+			// many rounds: leave after a few
+			cn := g.newName("n")
+			body = append(ref.TProc{ln(cn), xn(cn), ref.TInt(1), xn("add"), xn("def"), xn(cn), ref.TInt(int64(2 + g.rng.IntN(3))), xn("eq"), ref.TProc{xn("exit")}, xn("if")}, body...)
+			return []ref.Tok{ln(cn), ref.TInt(0), xn("def"), ref.TInt(sh[0]), ref.TInt(sh[1]), ref.TInt(sh[2]), body, xn("for")}
+		}
+		return []ref.Tok{ref.TInt(sh[0]), ref.TInt(sh[1]), ref.TInt(sh[2]), body, xn("for")}
 	default:
 		return []ref.Tok{g.lit()}
 	}
@@ -367,6 +412,21 @@ var c03Pinned = []string{
 	"0 -9223372036854775808 -9223372036854775808 { } for 7",
 	"9223372036854775805 1 9223372036854775807 { dup 9223372036854775806 eq { exit } if } for 7",
 	"-5 4611686018427387904 9223372036854775807 { } for",
+	"-5000000000000000000 2500000000000000000 5000000000000000000 { } for",
+	"-1 1 9223372036854775807 { dup 3 eq { exit } if } for",
+	"1 -1 -9223372036854775808 { dup -3 eq { exit } if } for",
+	"5000000000000000000 -2500000000000000000 -5000000000000000000 { } for",
+	// names bound to executable names
+	"/plus { add } 0 get def 1 2 plus",
+	"/a { b } 0 get def /b { c } 0 get def /c 7 def a",
+	"/out { exit } 0 get def 0 1 5 { dup 2 eq { out } if } for 9",
+	"/a { b } 0 get def /b 1 def a /b 2 def a",
+	"/body { 7 } def /al { body } 0 get def 2 { al } repeat",
+	// a string constant in a body is one object
+	"/p { (abc) } def p 0 88 put p 0 get",
+	"2 { (a) dup 0 get exch 0 66 put } repeat",
+	"/p { (xy) } def p p",
+	"3 { (s) } repeat",
 }
 
 func runC03(r *rt.Runner) {
